@@ -1010,4 +1010,199 @@ theorem rp_new_fresh (k : Nat) : RP.new.alreadyReceived k = false := by
   have h2 : RP.new.at k = Replay.EMPTY := by simp [RP.at, RP.new]
   rw [if_pos h2]
 
+/-! ### B.3 rounds: both clocks advance, the client's datagram travels up, the server's answers travel down -/
+
+/-- what the network does to the datagrams of one round: everything arrives; the client's datagram is lost (and with
+    it everything else of the round); the client's datagram arrives but nothing the server sends does -/
+inductive Fate where
+  | delivered | upLost | downLost
+  deriving DecidableEq, Repr
+
+def resOpt {α : Type} : Res Empty α → Option α
+  | .ok x => some x
+  | _ => none
+
+/-- the datagram (if any) a server result carries for `addr` -/
+def answerTo (addr : Addr) : ServerResult → Option Bytes
+  | .packetToSend ad p => if ad = addr then some p else none
+  | .clientConnected _ ad _ p => if ad = addr then some p else none
+  | _ => none
+
+/-- hand a datagram (if any) to the client's `process_packet` -/
+def deliver (a : AEAD) (o : Option Bytes) (c : NetcodeClient) : Option NetcodeClient :=
+  match o with
+  | none => some c
+  | some p =>
+    match c.processPacket a p with
+    | .ok (_, c') => some c'
+    | _ => none
+
+/-- the way up: the client's datagram reaches the server (whose own address is `me`) unless it is lost or addressed
+    to another server; the server sees it coming from `addr` -/
+def up (a : AEAD) (addr me : Addr) (f : Fate) (out : Option (Bytes × Addr)) (s : NetcodeServer) :
+    Option (ServerResult × NetcodeServer) :=
+  match out with
+  | none => some (.none, s)
+  | some (dg, dst) => if f = .upLost ∨ dst ≠ me then some (.none, s) else resOpt (s.processPacket a addr dg)
+
+/-- the way down: in a `delivered` round the client processes the answer to its datagram and the keep-alive of the
+    server's tick -/
+def down (a : AEAD) (addr : Addr) (f : Fate) (r r' : ServerResult) (c : NetcodeClient) : Option NetcodeClient :=
+  if f = .delivered then (deliver a (answerTo addr r) c).bind (deliver a (answerTo addr r')) else some c
+
+/-- **One round of `d` nanoseconds** between a client (seen by the server as `addr`, client id `id`) and the server
+    listening on `me`: `server.update(d)`; `client.update(d)` (time-outs, failover, send-rate gate, at most one
+    datagram); the datagram travels up (`up`); the server's per-client tick `update_client(id)` (time-out, keep-alive);
+    the answers travel down (`down`).  `none` = some call unwound. -/
+def round (a : AEAD) (addr me : Addr) (id : Nat) (f : Fate) (d : Nat) (w : NetcodeClient × NetcodeServer) :
+    Option (NetcodeClient × NetcodeServer) :=
+  match w.2.update d, w.1.update a d with
+  | .ok s1, .ok (out, c1) =>
+    match up a addr me f out s1 with
+    | some (r, s2) =>
+      match s2.updateClient a id with
+      | .ok (r', s3) => (down a addr f r r' c1).map fun c3 => (c3, s3)
+      | _ => none
+    | none => none
+  | _, _ => none
+
+/-- a schedule of rounds -/
+def runRounds (a : AEAD) (addr me : Addr) (id : Nat) :
+    List (Fate × Nat) → NetcodeClient × NetcodeServer → Option (NetcodeClient × NetcodeServer)
+  | [], w => some w
+  | (f, d) :: rest, w => (round a addr me id f d w).bind (runRounds a addr me id rest)
+
+/-- the duration of a schedule -/
+def totalTime : List (Fate × Nat) → Nat
+  | [] => 0
+  | (_, d) :: rest => d + totalTime rest
+
+theorem totalTime_append (l1 l2 : List (Fate × Nat)) : totalTime (l1 ++ l2) = totalTime l1 + totalTime l2 := by
+  induction l1 with
+  | nil => simp [totalTime]
+  | cons x rest ih => obtain ⟨f, d⟩ := x; simp only [List.cons_append, totalTime, ih]; omega
+
+theorem runRounds_append (a : AEAD) (addr me : Addr) (id : Nat) (l1 l2 : List (Fate × Nat))
+    (w : NetcodeClient × NetcodeServer) :
+    runRounds a addr me id (l1 ++ l2) w = (runRounds a addr me id l1 w).bind (runRounds a addr me id l2) := by
+  induction l1 generalizing w with
+  | nil => rfl
+  | cons x rest ih =>
+    obtain ⟨f, d⟩ := x
+    simp only [List.cons_append, runRounds]
+    cases round a addr me id f d w with
+    | none => rfl
+    | some w' => simp only [Option.bind_some, ih]
+
+theorem round_intro {a : AEAD} {addr me : Addr} {id : Nat} {f : Fate} {d : Nat} {c c1 c3 : NetcodeClient}
+    {s s1 s2 s3 : NetcodeServer} {out : Option (Bytes × Addr)} {r r' : ServerResult}
+    (h1 : s.update d = .ok s1) (h2 : c.update a d = .ok (out, c1)) (h3 : up a addr me f out s1 = some (r, s2))
+    (h4 : s2.updateClient a id = .ok (r', s3)) (h5 : down a addr f r r' c1 = some c3) :
+    round a addr me id f d (c, s) = some (c3, s3) := by
+  simp only [round, h1, h2, h3, h4, h5, Option.map_some]
+
+theorem up_none (a : AEAD) (addr me : Addr) (f : Fate) (s : NetcodeServer) : up a addr me f none s = some (.none, s) := rfl
+
+theorem up_lost (a : AEAD) (addr me : Addr) {f : Fate} {dg : Bytes} {dst : Addr} (s : NetcodeServer)
+    (h : f = .upLost ∨ dst ≠ me) : up a addr me f (some (dg, dst)) s = some (.none, s) := by
+  simp only [up, if_pos h]
+
+theorem up_arrives (a : AEAD) (addr me : Addr) {f : Fate} {dg : Bytes} {s s' : NetcodeServer} {r : ServerResult}
+    (hf : f ≠ .upLost) (h : s.processPacket a addr dg = .ok (r, s')) :
+    up a addr me f (some (dg, me)) s = some (r, s') := by
+  have : ¬ (f = .upLost ∨ me ≠ me) := by rintro (h | h); exact hf h; exact h rfl
+  simp only [up, if_neg this, h, resOpt]
+
+theorem down_lossy (a : AEAD) (addr : Addr) {f : Fate} (hf : f ≠ .delivered) (r r' : ServerResult) (c : NetcodeClient) :
+    down a addr f r r' c = some c := by
+  simp only [down, if_neg hf]
+
+theorem down_nothing (a : AEAD) (addr : Addr) (f : Fate) {r r' : ServerResult} (c : NetcodeClient)
+    (h1 : answerTo addr r = none) (h2 : answerTo addr r' = none) : down a addr f r r' c = some c := by
+  unfold down
+  split
+  · simp only [h1, h2, deliver, Option.bind_some]
+  · rfl
+
+theorem down_first (a : AEAD) (addr : Addr) {r r' : ServerResult} {c c' : NetcodeClient} {p : Bytes} {o : Option Bytes}
+    (h1 : answerTo addr r = some p) (h2 : answerTo addr r' = none) (h : c.processPacket a p = .ok (o, c')) :
+    down a addr .delivered r r' c = some c' := by
+  simp only [down, if_true, h1, h2, deliver, h, Option.bind_some]
+
+theorem down_second (a : AEAD) (addr : Addr) {r r' : ServerResult} {c c' : NetcodeClient} {p : Bytes} {o : Option Bytes}
+    (h1 : answerTo addr r = none) (h2 : answerTo addr r' = some p) (h : c.processPacket a p = .ok (o, c')) :
+    down a addr .delivered r r' c = some c' := by
+  simp only [down, if_true, h1, h2, deliver, h, Option.bind_some]
+
+/-! ### B.4 the phases of a handshake
+
+  Fixed: the AEAD, the server configuration `s0` (keys, protocol id, public addresses), the address `addr` the server
+  sees the client at, the token (`t` sealed with `expire`, `xnonce`). -/
+
+/-- what identifies the session the token `t`, presented from `addr`, leads to -/
+def identT (addr : Addr) (expire : Nat) (t : PrivateConnectToken) : Ident := ident (mkPending 0 addr expire t)
+
+/-- the static facts about token and configuration used by every step -/
+structure TokOK (a : AEAD) (s0 : NetcodeServer) (t : PrivateConnectToken) (expire : Nat) (xnonce : Bytes) : Prop where
+  laws : a.Laws
+  wf : PTokenWF t
+  xn : xnonce.length = 24
+  exp : expire < 2 ^ 64
+  pid : s0.protocolId < 2 ^ 64
+  host : s0.secure = true → ∃ x, some x ∈ t.serverAddresses ∧ x ∈ s0.publicAddresses
+
+/-- **the server is open for this client**: configuration unchanged, invariant, neither the address nor the id
+    connected, fewer than the maximum *other* half-open sessions, the token not bound to another address, a slot free -/
+structure SrvOpen (a : AEAD) (s0 : NetcodeServer) (addr : Addr) (t : PrivateConnectToken) (expire : Nat) (xnonce : Bytes)
+    (s : NetcodeServer) : Prop where
+  cfg : SameCfg s0 s
+  inv : ServerInv s
+  addrFree : findClientByAddr s.clients addr = none
+  idFree : findClientById s.clients t.clientId = none
+  room : (pendingRemove s.pendingClients addr).length < C.NETCODE_MAX_PENDING_CLIENTS
+  bound : Bound s addr (tokenMac (sealedPriv a s0 t expire xnonce))
+  cap : countConnected s.clients < s.maxClients
+
+section Srv
+variable {a : AEAD} {s0 : NetcodeServer} {addr : Addr} {t : PrivateConnectToken} {expire : Nat} {xnonce : Bytes}
+
+/-- `update(d)` keeps the server open -/
+theorem SrvOpen.tick {s : NetcodeServer} (h : SrvOpen a s0 addr t expire xnonce s) {d : Nat}
+    (hd : s.currentTime + d ≤ DURATION_MAX) : SrvOpen a s0 addr t expire xnonce (srvTick s d) :=
+  ⟨⟨h.cfg.1, h.cfg.2, h.cfg.3, h.cfg.4, h.cfg.5, h.cfg.6⟩, update_inv h.inv (server_update_eq hd), h.addrFree, h.idFree,
+    Nat.lt_of_le_of_lt (pendingRemove_filter _ _ _) h.room, fun e he => h.bound e he, h.cap⟩
+
+/-- … and a half-open session whose token has not expired -/
+theorem pending_survives_tick {s : NetcodeServer} {ad : Addr} {p : Connection} {d : Nat}
+    (hpf : pendingFind s.pendingClients ad = some p) (he : asSecs (s.currentTime + d) ≤ p.expireTimestamp) :
+    pendingFind (srvTick s d).pendingClients ad = some p := by
+  apply pendingFind_filter_some hpf
+  simp only [Bool.not_eq_true', decide_eq_false_iff_not]
+  omega
+
+/-- the per-client tick does nothing while the id is not connected -/
+theorem SrvOpen.idle {s : NetcodeServer} (h : SrvOpen a s0 addr t expire xnonce s) :
+    s.updateClient a t.clientId = .ok (.none, s) := updateClient_absent a (findSlot_none.mpr h.idFree)
+
+/-- a request (first, retransmitted or duplicated) is answered with a challenge; the server stays open and holds the
+    half-open session of the token, stamped `now` -/
+theorem SrvOpen.request (hT : TokOK a s0 t expire xnonce) {s : NetcodeServer} (h : SrvOpen a s0 addr t expire xnonce s)
+    (hg : s.globalSequence < U64_MAX) (hc : s.challengeSequence < U64_MAX) (hnow : asSecs s.currentTime < expire) :
+    ∃ s', s.processPacket a addr (requestBytes a s0 t expire xnonce) =
+        .ok (.packetToSend addr (challengeBytes a s t), s') ∧
+      SrvOpen a s0 addr t expire xnonce s' ∧
+      pendingFind s'.pendingClients addr = some (mkPending s.currentTime addr expire t) ∧
+      s'.challengeSequence = s.challengeSequence + 1 ∧ s'.globalSequence = s.globalSequence + 1 ∧
+      s'.currentTime = s.currentTime := by
+  have e1 := sealedPriv_cfg a h.cfg t expire xnonce
+  obtain ⟨s', h1, h2, h3, h4, h5, h6, h7, h8, h9, h10⟩ := request_challenged a hT.laws (s := s) (addr := addr) (t := t)
+    (expire := expire) (xnonce := xnonce) h.inv hg hc hT.wf hT.xn hT.exp (by rw [h.cfg.protocolId]; exact hT.pid) hnow
+    (by rw [h.cfg.secure, h.cfg.publicAddresses]; exact hT.host) h.addrFree h.idFree h.room
+    (by rw [e1]; exact h.bound) h.cap
+  rw [requestBytes_cfg a h.cfg] at h1
+  refine ⟨s', h1, ⟨h.cfg.trans h7, h10, by rw [h4]; exact h.addrFree, by rw [h4]; exact h.idFree, by rw [h3]; exact h.room,
+    by rw [← e1]; exact h9, by rw [h4, h7.maxClients]; exact h.cap⟩, h2, h5, h6, h8⟩
+
+end Srv
+
 end RenetVerif.NcLive2
